@@ -1,11 +1,53 @@
 import Enc.Model.Iso
 import Enc.Spec.Iso
+import Enc.Lemmas.IsoCalendar
+import Enc.Lemmas.IsoValid
+import Enc.Lemmas.IsoFast
 /-!
 # C18 — iso8601.Parse agrees with time.Parse(RFC3339Nano); Valid is its grammar
 Property theorems only.
 -/
 namespace Enc.Props.C18
 open Enc Enc.Model.Iso
+
+/-- **Fast path = byte-wise definition.** For EVERY byte string: the word-at-a-time fast path of `Parse`
+(three little-endian words, separator masks, `nonNumeric`, nibble extraction, fraction loop, `validate`,
+closed-form `daysSinceEpoch` in uint64 arithmetic) falls through exactly when the input is not of the shape
+`YYYY-MM-DDTHH:MM:SS[.d{1,9}]Z`, reports a range error exactly when the shape is right and a component is out of
+range (month 1–12, day ≤ days of that month in that year, hour < 24, minute/second < 60), and otherwise returns the
+instant of the byte-wise definition, computed with a calendar defined by recursion over years and months.
+So the fast path accepts no malformed timestamp and rejects no valid one of its shape. -/
+theorem parseFast_spec (s : Bytes) :
+    (match parseFast s with
+     | .notFast => Spec.Iso.parseZ s = none
+     | .rangeErr => Spec.Iso.parseZ s = some none
+     | .ok u n => Spec.Iso.parseZ s = some (some (u, n))) :=
+  Lemmas.IsoFast.parseFast_spec s
+
+/-- the closed-form day count equals the recursive calendar for every date of years 0000–9999 -/
+theorem daysSinceEpoch_spec (y m d : Nat) (hy : y ≤ 9999) (hm1 : 1 ≤ m) (hm2 : m ≤ 12) (hd1 : 1 ≤ d) (hd2 : d ≤ 31) :
+    (daysSinceEpoch (w64 y) (w64 m) (w64 d)).toInt = Spec.Iso.daysFromCivil y m d :=
+  Lemmas.IsoCalendar.daysSinceEpoch_spec y m d hy hm1 hm2 hd1 hd2
+
+/-- `validate` accepts exactly the in-range components -/
+theorem validate_spec (y m d h mi s : Nat) :
+    validate y m d h mi s =
+      (decide (1 ≤ m) && decide (m ≤ 12) && decide (1 ≤ d) && decide (d ≤ Spec.Iso.daysInMonth y m) &&
+        decide (h < 24) && decide (mi < 60) && decide (s < 60)) :=
+  Lemmas.IsoCalendar.validate_spec y m d h mi s
+
+/-- **Valid = its flag grammar**, for every byte string and all 32 flag subsets:
+`YYYY-MM-DD[(T|space)hh:mm:ss[.d{1,9}][Z|[space](+|-)hh[:]mm]]`, each optional or alternative part allowed only by
+its flag (the grammar is a non-deterministic matcher; the code is one deterministic left-to-right pass). -/
+theorem valid_spec (s : Bytes) (f : VFlags) :
+    valid s f = Spec.Iso.validSpec s ⟨f.space, f.missingTime, f.missingSubsecond, f.missingTimezone, f.numericTimezone⟩ :=
+  Lemmas.IsoValid.valid_spec s f
+
+/-- non-vacuity: a concrete timestamp on the success branch, one on the range-error branch -/
+example : parseFast [0x32,0x30,0x30,0x36,0x2d,0x30,0x31,0x2d,0x30,0x32,0x54,0x31,0x35,0x3a,0x30,0x34,0x3a,0x30,0x35,0x5a]
+    = .ok 1136214245 0 := by decide +kernel
+example : parseFast [0x32,0x30,0x32,0x31,0x2d,0x30,0x32,0x2d,0x33,0x30,0x54,0x31,0x35,0x3a,0x30,0x34,0x3a,0x30,0x35,0x5a]
+    = .rangeErr := by decide +kernel
 
 /-- the leap-year test of the fast path is the Gregorian rule used by the calendar specification -/
 theorem isLeapYear_spec (y : Nat) : isLeapYear y = Spec.Iso.isLeap y := by
